@@ -135,21 +135,20 @@ def c10_field_14_dropped(case, out):
     return False
 
 
-def _kv_sized(case):
-    """FileMetaData whose size comes from key_value_metadata alone: to_bytes sizes its buffer from that field, so the
-    pinned tree serialises these correctly and they are NOT part of the to_bytes overflow finding."""
-    import json
-    if case.get("struct") != "FileMetaData" or not isinstance(case.get("value"), dict):
-        return False
-    rest = {k: v for k, v in case["value"].items() if k != "key_value_metadata"}
-    return len(json.dumps(rest)) < 100000
+def _beyond_pinned_buffer(case):
+    """The to_bytes finding is exactly: the structure serialises to more bytes than the buffer the pinned tree
+    allocates for it (500000, or the RowGroup / FileMetaData estimate).  A value that fits and still overflows is a
+    different defect and is reported."""
+    from vf.props import c10
+    n = c10.reference_size(case)
+    return n is not None and n > c10.pinned_buffer_size(case)
 
 
 @predicate
 def c10_to_bytes_overflow(case, out):
     """ThriftObject.to_bytes serialises into a 500000-byte buffer (larger only for RowGroup/FileMetaData by a
     heuristic); a longer structure is memcpy'd past its end."""
-    return bool(case.get("allow_big")) and not _kv_sized(case) and (out["sig"].startswith("crash") or out["sig"].startswith(("not_thrift", "reparse_raised", "roundtrip", "trailing", "value_changed", "lost_field", "conformance")))
+    return bool(case.get("allow_big")) and _beyond_pinned_buffer(case) and (out["sig"].startswith("crash") or out["sig"].startswith(("not_thrift", "reparse_raised", "roundtrip", "trailing", "value_changed", "lost_field", "conformance")))
 
 
 def _c03_features(case):
@@ -282,7 +281,7 @@ def _c12_delta_pages(inner):
 def c12_to_bytes_overflow(case, out):
     src, inner = _c12_inner(case)
     sig = out["sig"]
-    return src == "C10" and bool(inner.get("allow_big")) and not _kv_sized(inner) and any(f in sig for f in ("write_thrift", "write_list", "to_bytes", "crash"))
+    return src == "C10" and bool(inner.get("allow_big")) and _beyond_pinned_buffer(inner) and any(f in sig for f in ("write_thrift", "write_list", "to_bytes", "crash"))
 
 
 @predicate
